@@ -11,6 +11,7 @@ inductive Event
   | nmi                                   -- `nmi_request()`
   | writeByte (a : UInt16) (v : UInt8)    -- `bus.write_byte`
   | writeWord (a : UInt16) (w : UInt16)   -- `bus.write_word`
+  | setRom (s : UInt16) (e : UInt16)      -- `bus.set_romspace` (a new declaration replaces the old one)
 deriving DecidableEq, Repr, Inhabited
 
 def Cpu.withBus (c : Cpu) (b : Bus) : Cpu := { c with arch := { c.arch with bus := b } }
@@ -22,6 +23,10 @@ def runEvent (c : Cpu) : Event → Cpu
   | .nmi => c.nmiRequest
   | .writeByte a v => c.withBus (c.arch.bus.writeByte a v)
   | .writeWord a w => c.withBus (c.arch.bus.writeWord a w)
+  | .setRom s e => c.withBus (c.arch.bus.setRomspace s e)
+
+/-- does the history (re)declare the ROM range? -/
+def Event.isSetRom : Event → Bool | .setRom _ _ => true | _ => false
 
 def run (c : Cpu) (es : List Event) : Cpu := es.foldl runEvent c
 
